@@ -128,8 +128,39 @@ func orderSensitive(p *Program, fn *ast.BlockStmt, rs *ast.RangeStmt) ([]types.O
 	var objs []types.Object
 	what := ""
 	local := map[types.Object]bool{}
+	rootIdent := func(e ast.Expr) *ast.Ident {
+		for {
+			switch x := ast.Unparen(e).(type) {
+			case *ast.Ident:
+				return x
+			case *ast.SelectorExpr:
+				e = x.X
+			case *ast.IndexExpr:
+				e = x.X
+			case *ast.StarExpr:
+				e = x.X
+			default:
+				return nil
+			}
+		}
+	}
 	ast.Inspect(rs.Body, func(n ast.Node) bool {
 		switch s := n.(type) {
+		case *ast.DeclStmt:
+			if gd, ok := s.Decl.(*ast.GenDecl); ok {
+				for _, sp := range gd.Specs {
+					if vs, ok := sp.(*ast.ValueSpec); ok {
+						for _, nm := range vs.Names {
+							// a value-typed variable declared in the body is fresh per iteration
+							if o := p.Info.ObjectOf(nm); o != nil {
+								if _, isPtr := o.Type().Underlying().(*types.Pointer); !isPtr {
+									local[o] = true
+								}
+							}
+						}
+					}
+				}
+			}
 		case *ast.AssignStmt:
 			if s.Tok == token.DEFINE {
 				for _, l := range s.Lhs {
@@ -168,6 +199,14 @@ func orderSensitive(p *Program, fn *ast.BlockStmt, rs *ast.RangeStmt) ([]types.O
 					objs = append(objs, nil)
 					what += "assignment to outer variable " + lx.Name + "; "
 				default:
+					if sel, ok := lx.(*ast.SelectorExpr); ok {
+						// a field of a struct-valued variable declared in this body
+						if id := rootIdent(sel); id != nil && local[p.Info.ObjectOf(id)] {
+							if _, isStruct := p.Info.TypeOf(id).Underlying().(*types.Struct); isStruct {
+								continue
+							}
+						}
+					}
 					objs = append(objs, nil)
 					what += "store to " + types.ExprString(l) + "; "
 				}
